@@ -77,6 +77,7 @@ fn with_big(mut p: Profile, t: Tier) -> Profile {
 fn p01(t: Tier) -> Profile {
     let mut p = Profile::base();
     p.p_never = 12;
+    p.p_storm = 20;
     with_big(p, t)
 }
 fn n01(_c: &Case, r: &RunOut) -> bool {
@@ -425,6 +426,9 @@ pub fn labels(c: &Case, r: &RunOut) -> Vec<&'static str> {
     }
     if c.root.depth() > 2 {
         l.push("nested_two_levels");
+    }
+    if c.storm {
+        l.push("concurrent_wakes_from_helper_threads");
     }
     if c.schedule.iter().any(|a| matches!(a, Action::Fire { thread: true, .. })) {
         l.push("wake_from_thread");
